@@ -302,15 +302,24 @@ func (vc *VC) dispatchCall(st *State, call *ast.CallExpr, recv *Term, args []Ter
 	if len(items) > 0 {
 		pre = st.clone()
 	}
+	// evaluated argument values, for argN in anchored items whose argument expression is itself a call
+	var argTerms []Term
+	if len(items) > 0 && len(args) == len(call.Args) {
+		argTerms = args
+	}
 	for _, it := range items {
 		if it.gu.When == "before" {
+			vc.argTerms = argTerms
 			vc.applyAnchored(st, call, it, nil, pre)
+			vc.argTerms = nil
 		}
 	}
 	rs := vc.dispatchCall2(st, call, recv, args, info)
 	for _, it := range items {
 		if it.gu.When == "after" {
+			vc.argTerms = argTerms
 			vc.applyAnchored(st, call, it, rs, pre)
+			vc.argTerms = nil
 		}
 	}
 	return rs
@@ -885,6 +894,14 @@ func (vc *VC) havocPattern(st *State, pat string) {
 		if isGhostName(n) {
 			continue
 		}
+		if strings.HasSuffix(pat, ".") || strings.HasSuffix(pat, "$") {
+			// package pattern "pkg." / type pattern "pkg.Type$": every field of every type of that
+			// package / every field of that type
+			if strings.HasPrefix(n, "F$"+pat) {
+				st.heap[n] = vc.fresh(n, vc.universe[n])
+			}
+			continue
+		}
 		if (strings.HasSuffix(n, "$"+field) && (typ == "" || strings.Contains(n, typ+"$"))) || strings.HasPrefix(n, pat+"$") || n == pat {
 			st.heap[n] = vc.fresh(n, vc.universe[n])
 		}
@@ -932,6 +949,11 @@ func (vc *VC) bindAnchors(fi *FuncInfo, c *FuncContract) {
 			}
 		case *ast.AssignStmt:
 			// "def:x" anchors the statement that defines local x (x := ...)
+			if x.Tok == token.ASSIGN && len(x.Lhs) == 1 {
+				// "set:<lhs>" anchors a plain assignment to the variable or field written <lhs>
+				txt = "set:" + nodeText(vc.prog.Fset, x.Lhs[0])
+				break
+			}
 			if x.Tok != token.DEFINE {
 				return true
 			}
